@@ -31,6 +31,7 @@ import Proofs.Dataflow
 import Proofs.DataflowAlias
 import Proofs.ResolverForks
 import Proofs.ResolverStaticCheck
+import Proofs.ResolverStaticMapCheck
 import Proofs.ResolverStaticExample
 
 namespace Props.C01
@@ -486,7 +487,7 @@ sub-pipeline boundary un-narrowed). -/
 theorem runtime_narrow_assignable (st : StructTable) (hst : StructsOk st) (F : Nat) (hF : NarrowFix st F)
     (ρ : Store) (f : ForkAssign) (r : RExp) (t t' : Ty) (h : HasTyR st t r) (hs : Sub st t t') :
     narrow st F t' (evalRT st F ρ f t r) = evalRT st F ρ f t' r ∧ HasTyR st t' r :=
-  narrow_evalRT st hst F hF ρ f r t t' h hs
+  narrow_evalRT st hst F hF ρ r t t' f h hs
 
 /-- Static projection along a whole path (`BindingPath`) commutes with the TYPED run-time
 evaluation, the types moving along (`bindingPath_sound_forks` is the untyped law). -/
@@ -498,13 +499,15 @@ theorem static_projection_typed (st : StructTable) (hst : StructsOk st) (F : Nat
   projPath_evalRT st hst F hF ρ f path r t h hp
 
 /-- One binding: for a source expression typed in an environment whose entries are related
-to the static environment, den's (narrowed) value is the run-time evaluation of what
-`resolveExp` (= `resolveRefs`, then `filter`) produces. -/
+to the static environment (in every fork assignment of `Fs`), den's (narrowed) value is the
+run-time evaluation, in any such fork assignment, of what `resolveExp` (= `resolveRefs`,
+then `filter`) produces. -/
 theorem resolveExp_refines_eval (st : StructTable) (hst : StructsOk st) (F : Nat) (hF : NarrowFix st F)
-    (ρ : Store) (env : Env) (self sib : RBMap) (hrel : EnvRel st F ρ env self sib) (e : Exp) (t : Ty)
+    (ρ : Store) (Fs : ForkAssign → Prop) (env : Env) (self sib : RBMap)
+    (hrel : EnvRel st F ρ Fs env self sib) (f : ForkAssign) (hf : Fs f) (e : Exp) (t : Ty)
     (h : HasTy st env.selfTy env.callTy t e) :
-    narrow st F t (eval st env e) = evalRT st F ρ [] t (filterR st t (resolveRefs self sib e)) :=
-  (eval_resolveExp st hst F hF ρ env self sib hrel e t h).1
+    narrow st F t (eval st env e) = evalRT st F ρ f t (filterR st t (resolveRefs self sib e)) :=
+  (eval_resolveExp st hst F hF ρ Fs env self sib hrel f hf e t h).1
 
 /--
 PARTIAL (the refinement, for the plain fragment).  For every well-typed PLAIN program
@@ -538,6 +541,74 @@ theorem resolver_refines_den_plain_checked (P : Program) (nm : List String → S
     (ρ : Store) (h1 : wellTypedB P = true) (h2 : acyclicB P.table = true) (hρ : StoreOf nm O ρ) :
     den P O = twoPhase P nm ρ :=
   twoPhase_eq_den_F P (wellTypedB_sound P h1) P.nfuel (narrowFix_of_acyclicB P.table h2) nm O ρ hρ
+
+/--
+PARTIAL (the refinement, with statically sized map calls).  The same for programs in which,
+besides plain calls, STAGES are called by `map call` over ARRAY LITERALS (`WellTypedM`: every
+split binding is an array literal, all of one non-zero length; elements may be constants,
+pipeline inputs, upstream outputs, struct literals; no `disabled`, no mapped pipeline).  Static
+phase: the split bindings become `split` nodes over the resolved literal, the node forks
+over the call, the call's outputs are the unrolled merge (`MergeExp.BindingPath` with a known
+length: the array of the node's reference read in fork 0, 1, …, written `fork`); run-time
+phase: fork `k` of the node evaluates its inputs in the fork assignment `[(call, k)]`, the
+consumers in the empty one.  The store is described node by node (`StoreAtNode`: the outs of
+a node read in a fork assignment are those of the fork of THAT node the assignment selects);
+the resolved expressions of an environment denote the same value in EVERY fork assignment
+(`EnvRel … FsT`), which is the invariant of the induction.  Result: den's top-level outputs,
+and den's stage instances — one per fork of every mapped stage, in den's order, each with its
+argument record (split parameters: the `k`-th element, narrowed) — are exactly what the two
+phases compute.
+
+Still excluded (full statement in the comment of `resolver_refines_den_plain_partial`): split
+sources that are not array literals in the source (typed-map literals; a literal handed down
+as a pipeline input; references of run-time size: `merge` nodes stay), mapped pipelines,
+nested map calls, `disabled`.  The static model and the per-run tie cover the first two of
+these as well (`C01.static`), unproved.
+-/
+theorem resolver_refines_den_staticmap_partial (P : Program) (nm : List String → String) (O : Oracle)
+    (ρ : Store) (hw : WellTypedM P) (hfix : NarrowFix P.table P.nfuel)
+    (hρ : ∀ n ∈ (staticProgram P nm).2, StoreAtNode nm O ρ n) :
+    den P O = twoPhaseM P nm ρ :=
+  twoPhaseM_eq_den_F P hw P.nfuel hfix nm O ρ hρ
+
+/-- … with DECIDABLE hypotheses and the store built from the oracle and the call graph: the
+checks `wellTypedMB`, `acyclicB` pass and the node names are distinct. -/
+theorem resolver_refines_den_staticmap_checked (P : Program) (nm : List String → String) (O : Oracle)
+    (h1 : wellTypedMB P = true) (h2 : acyclicB P.table = true)
+    (h3 : ((staticProgram P nm).2.map fun n => nm n.path).Nodup) :
+    den P O = twoPhaseM P nm (storeOfNodes nm (staticProgram P nm).2 O) :=
+  twoPhaseM_eq_den_F P (wellTypedMB_sound P h1) P.nfuel (narrowFix_of_acyclicB P.table h2) nm O _
+    (storeOfNodes_ok nm _ O h3)
+
+/-- den on a map call of a stage over array literals of length `n`: one run of the callee per
+index, in index order (the den-side half of the refinement; cf. `den_map_collects`) -/
+theorem den_map_literal (st : StructTable) (F : Nat) (insOf : String → List Param) (run : Runner)
+    (path : List String) (env : Env) (c : Call) (n : Nat) (hn : 0 < n)
+    (hm : c.mapped = true) (hd : c.disabled = none) (hex : ∃ b ∈ c.binds, b.split = true)
+    (h : ∀ b ∈ c.binds, b.split = true → ∃ es, b.exp = .arr es ∧ es.length = n) :
+    evalCall st F insOf run path [] env c =
+      (⟨c.callee, 0, 1⟩,
+       .arr ((List.range n).map fun k =>
+          (run c.callee (path ++ [c.id]) [(c.id, .i k)]
+            (mkArgs st F (argVals st env (insOf c.callee) c) (some (.i k)))).1),
+       (List.range n).flatMap fun k =>
+          (run c.callee (path ++ [c.id]) [(c.id, .i k)]
+            (mkArgs st F (argVals st env (insOf c.callee) c) (some (.i k)))).2) :=
+  evalCall_mapped st F insOf run path env c n hn hm hd hex h
+
+/-- non-vacuity: a map call of a stage over two array literals of length 3 (constants, a pipeline
+input, upstream outputs, a struct literal next to references that are narrowed WIDE → PAIR),
+consumed whole, projected and narrowed, passes the checks; the node names are distinct -/
+example : wellTypedMB exMap = true ∧ acyclicB exMap.table = true ∧
+    ((staticProgram exMap exNm).2.map fun n => exNm n.path).Nodup := by decide
+
+/-- … there are 1 + 3 + 1 stage instances, and fork 1 of `W` receives `x = 5` (the pipeline
+input) and the struct literal narrowed to PAIR -/
+example :
+    (twoPhaseM exMap exNm exMapStore).2.length = 5 ∧
+    ((twoPhaseM exMap exNm exMapStore).2.find? fun i => i.key == ⟨["TOP", "W"], [("W", .i 1)]⟩).map
+      (fun i => i.args.matches (.obj [("x", .atom "5"), ("p", .obj [("a", .atom "1"), ("b", .atom "\"s\"")]),
+        ("k", .atom "3")])) = some true := by decide
 
 /-- non-vacuity: a nested, aliased program with struct narrowing WIDE → PAIR across the
 pipeline boundary, projections through the boundary, struct / array literals mixing
